@@ -4,8 +4,11 @@
 package main
 
 import (
+	"flag"
 	"fmt"
 	"os"
+	"os/exec"
+	"path/filepath"
 	"runtime/debug"
 	"runtime/pprof"
 	"sort"
@@ -147,6 +150,10 @@ type obs struct {
 
 var uiNet, pubNet *fedi.Net
 
+// raceMode: run the scenario bodies without the scheduler (see raceSupplement).
+var raceMode bool
+var raceRounds = flag.Int("race-bodies", 0, "internal: run every scenario body this many times free-running (binary built with -race)")
+
 func runUI(sc uiScenario, prefix []int) explore.Exec {
 	if uiNet == nil {
 		uiNet = threadWorld()
@@ -160,7 +167,7 @@ func runUI(sc uiScenario, prefix []int) explore.Exec {
 	config.Parsed.Media.Hook = []string{os.Getenv("VERIF_DIR_BIN") + "/vdump", "%url"}
 	var d *uidrv.Driver
 	var frameFaults []string
-	out := verifrt.Run(prefix, 20000, map[string]bool{"pub": true, "splicer": true, "client": true}, func() {
+	body := func() {
 		d = uidrv.New(40, 10)
 		d.OnFrame = func(f string) {
 			_, h := d.S.VerifSize()
@@ -178,7 +185,12 @@ func runUI(sc uiScenario, prefix []int) explore.Exec {
 			verifrt.GoTag(fmt.Sprintf("actor%d-", i), func() { a(d) })
 		}
 		verifrt.Quiesce()
-	})
+	}
+	if raceMode {
+		body() // free-running: real goroutines, real sync, for the race detector
+		return explore.Exec{Out: &verifrt.Outcome{}}
+	}
+	out := verifrt.Run(prefix, 20000, map[string]bool{"pub": true, "splicer": true, "client": true}, body)
 	x := explore.Exec{Out: out}
 	x.Faults = append(x.Faults, frameFaults...)
 	if out.Panic != "" {
@@ -361,6 +373,10 @@ func runPub(sc pubScenario, prefix []int) explore.Exec {
 	net.W.TakeLog()
 	uidrv.Reset()
 	var desc string
+	if raceMode {
+		desc = sc.Run()
+		return explore.Exec{Out: &verifrt.Outcome{}, Observe: desc}
+	}
 	out := verifrt.Run(prefix, 20000, nil, func() { desc = sc.Run() })
 	x := explore.Exec{Out: out, Observe: desc}
 	if out.Panic != "" {
@@ -509,9 +525,63 @@ func runScenario(r *ev.Report, name string, budget time.Duration, maxBound int) 
 	}
 }
 
+// raceSupplement (sampling, not the deciding step): the same scenario bodies, built with
+// the race detector and without the scheduler, run free on all cores. The cooperative
+// scheduler's hand-offs are happens-before edges that blind the detector, and plain-memory
+// accesses are invisible to the scheduler, so this pass is what looks at them. The race
+// detector has no false positives, so it cannot alarm on a correct tree.
+func raceSupplement(r *ev.Report) {
+	overlay := os.Getenv("VERIF_OVERLAY")
+	scratch := os.Getenv("VERIF_SCRATCH")
+	if overlay == "" || scratch == "" {
+		r.Note("race supplement skipped: VERIF_OVERLAY / VERIF_SCRATCH not set")
+		return
+	}
+	bin := filepath.Join(scratch, "c08race")
+	build := exec.Command("go", "build", "-race", "-tags", "verif", "-overlay", overlay, "-o", bin, "./checks/c08")
+	build.Dir = ev.VerifDir()
+	if out, err := build.CombinedOutput(); err != nil {
+		ev.Fatal("cannot build the -race variant: %v\n%s", err, out)
+	}
+	rounds := "60"
+	if r.Thorough() {
+		rounds = "300"
+	}
+	cmd := exec.Command(bin, "-race-bodies", rounds)
+	cmd.Env = append(os.Environ(), "GORACE=halt_on_error=0", "GOMAXPROCS=16")
+	out, _ := cmd.CombinedOutput()
+	text := string(out)
+	n := strings.Count(text, "WARNING: DATA RACE")
+	r.Extra["race_supplement_rounds"] = rounds
+	r.Extra["race_supplement_reports"] = n
+	if !strings.Contains(text, "race-bodies: done") && n == 0 {
+		r.Violation("race-supplement:crash", replay{"race-bodies", nil, []string{"the free-running pass died", trunc(text)}})
+		return
+	}
+	if n > 0 {
+		i := strings.Index(text, "WARNING: DATA RACE")
+		rep := text[i:]
+		if j := strings.Index(rep, "=================="); j > 0 {
+			rep = rep[:j]
+		}
+		// key by the first servitor source line in the report
+		key := "race-supplement"
+		for _, l := range strings.Split(rep, "\n") {
+			if strings.Contains(l, "/repo/") && !strings.Contains(l, "/verifrt/") {
+				f := strings.Fields(strings.TrimSpace(l))
+				if len(f) > 0 {
+					key += ":" + filepath.Base(strings.SplitN(f[0], ":", 2)[0])
+				}
+				break
+			}
+		}
+		r.Violation(key, replay{"race-bodies", nil, []string{fmt.Sprintf("%d data race report(s) from the Go race detector", n), trunc(rep)}})
+	}
+}
+
 func trunc(s string) string {
-	if len(s) > 300 {
-		return s[:300]
+	if len(s) > 1500 {
+		return s[:1500]
 	}
 	return s
 }
@@ -521,7 +591,21 @@ func main() {
 		"schedule enumeration (stateless DFS with replay, preemption bound raised 0,1,2[,3], happens-before fingerprint pruning) of 10 UI scenarios (open/feed/keys/resize/link/hook/command goroutines over the real ui.State, pub fan-out inlined) and 6 pub-level scenarios "+
 			"(post with two authors+audience+replies, activity, two-page harvest, duplicate authors, splicer; fan-out fully scheduled); oracles: lock held in every private State method and frame, one frame at a time, no deadlock, progress at quiescence, frame height, "+
 			"final state of every preemptive schedule equals that of some non-preemptive (serial) one, constructed items identical in all schedules, one request per URL; states = happens-before fingerprints, transitions = scheduling points executed; distinct_nontrivial = distinct (scenario, outcome) pairs")
+	flag.Parse()
 	os.Setenv("VERIF_DIR_BIN", ev.VerifDir()+"/bin")
+	if *raceRounds > 0 {
+		raceMode = true
+		for round := 0; round < *raceRounds; round++ {
+			for _, sc := range uiScenarios() {
+				runUI(sc, nil)
+			}
+			for _, sc := range pubScenarios() {
+				runPub(sc, nil)
+			}
+		}
+		fmt.Println("race-bodies: done")
+		return
+	}
 	debug.SetGCPercent(800)
 	var names []string
 	for _, s := range uiScenarios() {
@@ -581,12 +665,16 @@ func main() {
 		r.FinishShard(*ev.FlagOut)
 	}
 	par.RunShards(r, len(names), 0)
+	if r.Thorough() || os.Getenv("VERIF_RACE_SUPPLEMENT") == "1" {
+		raceSupplement(r)
+	}
 	r.Traces = r.Executions()
 	r.Extra["scenarios"] = names
 	r.Assumptions = append(r.Assumptions,
 		"scheduling points: Mutex.Lock, WaitGroup.Wait, go (spawn), goroutine exit, dial (a fetch takes time), the output callback; sufficient for data-race-free code; accesses the scheduler does not see (plain memory) are not covered here - the fan-out's result determinism oracle and C06/C09 exercise them indirectly",
 		"UI scenarios run the pub/splicer/client fan-out inline (fork-join at the spawn point); the pub-level scenarios schedule it fully and show the result is schedule-independent",
 		"a scenario that does not finish a bound within its time budget reports the last completed bound (exhaustive only up to that bound)",
+		"thorough tier adds a free-running pass of the same scenario bodies under the Go race detector (sampling; declared as a supplement)",
 		"the serial reference for atomicity is the set of final states of all non-preemptive schedules of the same harness")
 	r.Finish()
 }
